@@ -101,3 +101,8 @@ VARIANTS += [
          old="            with open(self._file_path, \"ab\") as f:\n",
          new="            with open(self._file_path, \"ab\", buffering=0) as f:\n"),
 ]
+
+VARIANTS += [
+    dict(id="c07-lock-release-after-failed-acquire", prop="C07", file=JF, expect="R07.3",
+         old="    lock_obj.acquire()\n    try:\n        yield\n", new="    try:\n        lock_obj.acquire()\n        yield\n"),
+]
